@@ -427,3 +427,68 @@ def realify(t):
     if 'c' in t:
         return dict(t, c=[realify(c) for c in t['c']])
     return t
+
+
+def explicit_muldiv(text):
+    """Re-write an expression text with explicit brackets around every left-associated `*` `/` chain
+    ((a*b)/c)*d, leaving everything else as written. Used only to CLASSIFY a parse_expr failure
+    (does it disappear once the association of * and / is spelled out?)."""
+    toks = [t['s'] for t in lex(text)]
+    pos = [0]
+
+    def peek():
+        return toks[pos[0]] if pos[0] < len(toks) else None
+
+    def eat():
+        pos[0] += 1
+        return toks[pos[0] - 1]
+
+    def primary():
+        t = eat()
+        if t == '(':
+            inner = expr()
+            eat()
+            return '(' + inner + ')'
+        if peek() == '(' and t not in ('+', '-', '*', '/', '**', ',', ')') and not t.startswith('.'):
+            eat()
+            args = []
+            if peek() != ')':
+                args.append(expr())
+                while peek() == ',':
+                    eat()
+                    args.append(expr())
+            eat()
+            return t + '(' + ', '.join(args) + ')'
+        return t
+
+    def factor():
+        if peek() in ('-', '+'):
+            return eat() + factor()
+        b = primary()
+        if peek() == '**':
+            eat()
+            return b + '**' + factor()
+        return b
+
+    def term():
+        left = factor()
+        n = 0
+        while peek() in ('*', '/'):
+            op = eat()
+            right = factor()
+            left = ('(' + left + ')' if n else left) + ' ' + op + ' ' + right
+            n += 1
+        return left
+
+    def expr():
+        out = []
+        while peek() is not None and peek() not in (')', ','):
+            if peek() in ('+', '-') or peek() in ('==', '/=', '<', '<=', '>', '>=') or (peek().startswith('.') and peek().endswith('.') and peek() not in ('.true.', '.false.')):
+                out.append(eat())
+            else:
+                out.append(term())
+        return ' '.join(out)
+    res = expr()
+    if pos[0] != len(toks):
+        raise Unsupported('explicit_muldiv: trailing tokens')
+    return res
